@@ -2593,21 +2593,34 @@ let is_job_invalid_sw1_IMB_CIPHER_PON_AES_CNTR j _ hash_alg _ key_len_in_bytes =
                                                        else None
                          else None)
                         (oseq
-                          (if N.leb (Npos (XO (XO XH))) j.jv_msg_len_to_cipher
+                          (if (||)
+                                (N.leb (Npos (XO (XO XH)))
+                                  j.jv_msg_len_to_cipher)
+                                (N.leb (Npos (XO (XO (XO XH))))
+                                  j.jv_msg_len_to_hash)
                            then let xgem_hdr = j.jv_mem_xgem_hdr in
                                 let pli =
                                   w16
                                     (N.shiftr (bswap64 xgem_hdr) (Npos (XO
                                       (XI (XO (XO (XI XH)))))))
                                 in
+                                let payload_len =
+                                  if negb (N.eqb j.jv_msg_len_to_cipher N0)
+                                  then j.jv_msg_len_to_cipher
+                                  else sub64 j.jv_msg_len_to_hash (Npos (XO
+                                         (XO (XO XH))))
+                                in
                                 oseq
                                   (if N.ltb (Npos (XO (XO XH))) pli
                                    then let crc_len =
                                           w16 (sub32 pli (Npos (XO (XO XH))))
                                         in
-                                        if N.ltb
-                                             (sub64 j.jv_msg_len_to_cipher
-                                               (Npos (XO (XO XH)))) crc_len
+                                        if (||)
+                                             (N.ltb payload_len (Npos (XO (XO
+                                               XH))))
+                                             (N.ltb
+                                               (sub64 payload_len (Npos (XO
+                                                 (XO XH)))) crc_len)
                                         then Some iMB_ERR_JOB_PON_PLI
                                         else None
                                    else None) None
@@ -4051,6 +4064,13 @@ let pon_pli j =
   w16
     (N.shiftr (bswap64 j.jv_mem_xgem_hdr) (Npos (XO (XI (XO (XO (XI XH)))))))
 
+(** val pon_payload_len : job_view -> n **)
+
+let pon_payload_len j =
+  if N.eqb j.jv_msg_len_to_cipher N0
+  then N.sub j.jv_msg_len_to_hash (Npos (XO (XO (XO XH))))
+  else j.jv_msg_len_to_cipher
+
 (** val seg_in_ok : sgl_seg -> bool **)
 
 let seg_in_ok s =
@@ -4083,8 +4103,9 @@ let rec holds c j =
   | PonInPlace -> N.eqb j.jv_dst (add64 j.jv_src j.jv_cipher_start_src_offset)
   | PonPliFits ->
     (||) (N.leb (pon_pli j) (Npos (XO (XO XH))))
-      (N.leb (N.sub (pon_pli j) (Npos (XO (XO XH))))
-        (N.sub j.jv_msg_len_to_cipher (Npos (XO (XO XH)))))
+      ((&&) (N.leb (Npos (XO (XO XH))) (pon_payload_len j))
+        (N.leb (N.sub (pon_pli j) (Npos (XO (XO XH))))
+          (N.sub (pon_payload_len j) (Npos (XO (XO XH))))))
   | DocsisLenFits ->
     N.leb (N.add j.jv_msg_len_to_cipher (Npos (XO (XO (XO XH)))))
       j.jv_msg_len_to_hash
@@ -5960,23 +5981,55 @@ let rules_PON =
     false, true, false, true, true, true, false)), (String ((Ascii (false,
     false, false, true, false, true, true, false)), (String ((Ascii (true,
     false, true, false, false, true, true, false)), (String ((Ascii (false,
-    false, false, false, false, true, false, false)), (String ((Ascii (true,
-    true, false, false, false, true, true, false)), (String ((Ascii (true,
-    false, false, true, false, true, true, false)), (String ((Ascii (false,
-    false, false, false, true, true, true, false)), (String ((Ascii (false,
-    false, false, true, false, true, true, false)), (String ((Ascii (true,
+    false, false, false, false, true, false, false)), (String ((Ascii (false,
+    false, false, false, true, true, true, false)), (String ((Ascii (true,
+    false, false, false, false, true, true, false)), (String ((Ascii (true,
+    false, false, true, true, true, true, false)), (String ((Ascii (false,
+    false, true, true, false, true, true, false)), (String ((Ascii (true,
+    true, true, true, false, true, true, false)), (String ((Ascii (true,
+    false, false, false, false, true, true, false)), (String ((Ascii (false,
     false, true, false, false, true, true, false)), (String ((Ascii (false,
-    true, false, false, true, true, true, false)), (String ((Ascii (false,
     false, false, false, false, true, false, false)), (String ((Ascii (false,
     false, true, true, false, true, true, false)), (String ((Ascii (true,
     false, true, false, false, true, true, false)), (String ((Ascii (false,
     true, true, true, false, true, true, false)), (String ((Ascii (true,
     true, true, false, false, true, true, false)), (String ((Ascii (false,
     false, true, false, true, true, true, false)), (String ((Ascii (false,
-    false, false, true, false, true, true, false)),
-    EmptyString))))))))))))))))))))))))))))))))))))))))))))))))))))))))))))))))))))))))));
-    r_cond = (When ((ValAtLeast ((fun j -> j.jv_msg_len_to_cipher), (Npos (XO
-    (XO XH))))), PonPliFits)); r_err = iMB_ERR_JOB_PON_PLI } :: []))))))))))
+    false, false, true, false, true, true, false)), (String ((Ascii (false,
+    false, false, false, false, true, false, false)), (String ((Ascii (false,
+    false, false, true, false, true, false, false)), (String ((Ascii (false,
+    true, true, false, false, true, true, false)), (String ((Ascii (false,
+    true, false, false, true, true, true, false)), (String ((Ascii (true,
+    false, false, false, false, true, true, false)), (String ((Ascii (true,
+    false, true, true, false, true, true, false)), (String ((Ascii (true,
+    false, true, false, false, true, true, false)), (String ((Ascii (false,
+    false, false, false, false, true, false, false)), (String ((Ascii (false,
+    false, false, true, false, true, true, false)), (String ((Ascii (true,
+    true, true, true, false, true, true, false)), (String ((Ascii (false,
+    false, true, true, false, true, true, false)), (String ((Ascii (false,
+    false, true, false, false, true, true, false)), (String ((Ascii (true,
+    true, false, false, true, true, true, false)), (String ((Ascii (false,
+    false, false, false, false, true, false, false)), (String ((Ascii (true,
+    false, false, false, false, true, true, false)), (String ((Ascii (false,
+    true, true, true, false, true, true, false)), (String ((Ascii (false,
+    false, false, false, false, true, false, false)), (String ((Ascii (false,
+    false, false, true, true, false, true, false)), (String ((Ascii (true,
+    true, true, false, false, false, true, false)), (String ((Ascii (true,
+    false, true, false, false, false, true, false)), (String ((Ascii (true,
+    false, true, true, false, false, true, false)), (String ((Ascii (false,
+    false, false, false, false, true, false, false)), (String ((Ascii (false,
+    false, false, true, false, true, true, false)), (String ((Ascii (true,
+    false, true, false, false, true, true, false)), (String ((Ascii (true,
+    false, false, false, false, true, true, false)), (String ((Ascii (false,
+    false, true, false, false, true, true, false)), (String ((Ascii (true,
+    false, true, false, false, true, true, false)), (String ((Ascii (false,
+    true, false, false, true, true, true, false)), (String ((Ascii (true,
+    false, false, true, false, true, false, false)),
+    EmptyString))))))))))))))))))))))))))))))))))))))))))))))))))))))))))))))))))))))))))))))))))))))))))))))))))))))))))))))))))))))))))))))))))))));
+    r_cond = (When ((Either ((ValAtLeast ((fun j -> j.jv_msg_len_to_cipher),
+    (Npos (XO (XO XH))))), (ValAtLeast ((fun j -> j.jv_msg_len_to_hash),
+    (Npos (XO (XO (XO XH)))))))), PonPliFits)); r_err =
+    iMB_ERR_JOB_PON_PLI } :: []))))))))))
 
 (** val rules_ZUC_EEA3 : rule list **)
 
